@@ -27,7 +27,9 @@ M = 'filesys'
 EXPLANATION = ('Lookup keys of the zip, VPK and in-memory backends proved equal to one normal form (case folded, '
                'backslashes to slashes; the in-memory one after os.path.normpath, kept uninterpreted) for every name, '
                'the in-memory _get_file proved to hand back the stored entry of exactly that key; FileSystemChain._get_file proved to pick the first member that '
-               'has the (prefix-joined) name. Folder walks, byte equality between backends, de-duplicated chain walks '
+               'has the (prefix-joined) name. Zip and VPK walk_folder: the statements before the loop plus one arbitrary '
+               'iteration are proved to list a table entry exactly when its key lies inside the normal form of the folder '
+               '(all entries for the empty folder), once, as that entry. In-memory and directory walks, byte equality between backends, de-duplicated chain walks '
                'and subfolder-relative naming are decided by the bounded differential stand-in over generated file sets.')
 TRUSTED = ['str.casefold as an uninterpreted idempotent function', 'zipfile / VPK container I/O (C13)',
            'os.path.normpath on relative slash-separated names without "." / ".." components is the identity up to '
@@ -35,7 +37,8 @@ TRUSTED = ['str.casefold as an uninterpreted idempotent function', 'zipfile / VP
            'VirtualFileSystem.__init__: the comprehension is checked by shape (key = _clean_path(stored name), value = '
            '(stored name, data), no filter), not executed symbolically; later keys overwriting earlier equal ones is '
            'Python dict semantics']
-UNVERIFIED = ['walk_folder of every backend (bounded only)', 'host file-system case sensitivity for RawFileSystem']
+UNVERIFIED = ['walk_folder of the in-memory and directory backends, FileSystemChain.walk_folder* (bounded only)',
+              'that dict.items() visits every entry once (Python semantics; the walk lemmas are per entry)', 'host file-system case sensitivity for RawFileSystem']
 
 from pyvc.builtins_model import fold_fn, replace_all   # noqa: E402
 
@@ -339,6 +342,81 @@ def priority_members_are_searched_first_others_last_and_nothing_is_dropped(CHAIN
     return search_order_is(CHAIN, NEW, OLD0, OLD1) if PRIO else search_order_is(CHAIN, OLD0, OLD1, NEW)
 
 
+# ---- folder walks of the zip and VPK backends: the statements before the loop, then one arbitrary iteration
+def _before_loop(fn):
+    import ast
+    for i, st in enumerate(fn.body):
+        if isinstance(st, ast.For):
+            return [b for b in fn.body[:i] if not (isinstance(b, ast.Expr) and isinstance(b.value, ast.Constant))]
+    return []
+
+
+def _walk_lemma(cls, table_field, key_var, val_var):
+    from pyvc.vc import Lemma
+    lem = REG.add(Lemma(f'{cls}.walk_folder.one_entry', PROP,
+                        [{'stmts': f'{M}:{cls}.walk_folder', 'select': _before_loop},
+                         {'body': f'{M}:{cls}.walk_folder', 'loop': 0, 'closure': {'__yielded__': 'YIELDED'}}],
+                        inline=('File.__init__',)))
+
+    @lem.setup
+    def _(h):
+        key = h.str('key')
+        entry = Obj('Entry', dict(filename=h.str('stored_name')), module=M)
+        fs = Obj(cls, {table_field: h.dict_of('table', z3.StringSort(), z3.IntSort()), 'path': '<fs>'}, module=M)
+        return {'locals': {'self': fs, 'folder': h.str('folder0'), key_var: key, val_var: entry, 'YIELDED': []},
+                'ghost': dict(FOLDER=h.symbols['folder0'], KEY=key, ENTRY=entry, FS=fs)}
+    return lem
+
+
+@native
+def folder_normal_form(I, folder):
+    """The folder in normal form: fold(folder with '\\' -> '/') without its trailing slashes.  The interpreter's rstrip
+    model names the kept part r of s = r + '/'*; the clause using this also demands that s is that normal form."""
+    s, r, t = I.rstrip_witness[0]
+    return r
+
+
+@native
+def stripped_text(I):
+    return I.rstrip_witness[0][0]
+
+
+@native
+def inside_folder(I, key, f):
+    key, f = to_z3(key), to_z3(f)
+    return z3.Or(f == z3.StringVal(''), z3.PrefixOf(z3.Concat(f, z3.StringVal('/')), key))
+
+
+@native
+def n_yielded(I, YIELDED):
+    return len(YIELDED)
+
+
+@native
+def yielded_entry_is(I, YIELDED, ENTRY, FS):
+    return all(f.fields.get('_data') is ENTRY and f.fields.get('sys') is FS for f in YIELDED)
+
+
+def _walk_clauses(lem):
+    @lem.ensures
+    def trailing_slashes_are_stripped_from_the_normal_form_of_the_folder(FOLDER):
+        return stripped_text() == norm(FOLDER)
+
+    @lem.ensures
+    def an_entry_is_listed_exactly_when_it_is_located_inside_the_folder(FOLDER, KEY, YIELDED):
+        return iff(n_yielded(YIELDED) == 1, inside_folder(KEY, folder_normal_form(FOLDER))) and n_yielded(YIELDED) <= 1
+
+    @lem.ensures
+    def the_listed_file_is_that_entry_of_this_filesystem(YIELDED, ENTRY, FS):
+        return yielded_entry_is(YIELDED, ENTRY, FS)
+
+
+zip_walk = _walk_lemma('ZipFileSystem', '_name_to_info', 'filename', 'fileinfo')
+_walk_clauses(zip_walk)
+vpk_walk = _walk_lemma('VPKFileSystem', '_name_to_file', 'name', 'file')
+_walk_clauses(vpk_walk)
+
+
 # ---- every use of the in-memory table goes through the one key function (constructor, lookups, opens)
 def _shape(name, good, bad=False, line=0, note=''):
     r = smt.shape(name, good, bad, line, note)
@@ -404,7 +482,7 @@ def static_virtual_table(repo):
 
 
 STATIC = [static_virtual_table]
-PROOFS = [zip_exists, zip_get, vpk_exists, vpk_get, virt_exists, virt_get, chain_get, chain_add]
+PROOFS = [zip_exists, zip_get, vpk_exists, vpk_get, virt_exists, virt_get, zip_walk, vpk_walk, chain_get, chain_add]
 
 
 # ------------------------------------------------------------------------------------------------ bounded differential
@@ -760,8 +838,23 @@ MUTATIONS = [
          old="            self._clean_path(filename): (filename, data)",
          new="            filename.replace('\\\\', '/').casefold(): (filename, data)",
          expect='virtual.init'),
+    dict(name='vpk_walk_bare_prefix', file='filesys.py',
+         old="        for name, file in self._name_to_file.items():\n            if name.startswith(prefix):",
+         new="        for name, file in self._name_to_file.items():\n            if name.startswith(folder):",
+         expect='VPKFileSystem.walk_folder.one_entry'),
+    dict(name='vpk_walk_folder_not_folded', file='filesys.py',
+         old="        folder = folder.replace('\\\\', '/').casefold().rstrip('/')\n        prefix = folder + '/' if folder else ''  # Whole path components only, compared case-insensitively.",
+         new="        folder = folder.replace('\\\\', '/').rstrip('/')\n        prefix = folder + '/' if folder else ''  # Whole path components only, compared case-insensitively.",
+         expect='VPKFileSystem.walk_folder.one_entry'),
+    dict(name='zip_walk_lists_bak_files_twice', file='filesys.py',
+         old="            if filename.startswith(prefix):\n                yield File(self, fileinfo.filename, fileinfo)",
+         new="            if filename.startswith(prefix):\n                yield File(self, fileinfo.filename, fileinfo)\n                if filename.endswith('.bak'):\n                    yield File(self, fileinfo.filename, fileinfo)",
+         expect='ZipFileSystem.walk_folder.one_entry'),
 ]
 HARMLESS = [
+    dict(name='vpk_walk_prefix_renamed', file='filesys.py',
+         old="        prefix = folder + '/' if folder else ''  # Whole path components only, compared case-insensitively.\n        for name, file in self._name_to_file.items():\n            if name.startswith(prefix):",
+         new="        start = folder + '/' if folder else ''\n        for name, file in self._name_to_file.items():\n            if name.startswith(start):"),
     dict(name='virtual_exists_key_in_a_local', file='filesys.py',
          old="        return self._clean_path(name) in self._mapping",
          new="        key = self._clean_path(name)\n        return key in self._mapping"),
